@@ -29,6 +29,19 @@ func runC18(p *core.Program, r *core.Report) {
 	r.Floor("R4", 1)
 	c17R4(p, r, "devpkg/partialstruct")
 	c17R3(p, r, "devpkg/partialstruct")
+	// the copy body comes from the shared field-copy helper: its container arms are part of this property too
+	sub := core.NewReport(r.Prog, "C17")
+	c17R2(p, sub)
+	c17R7(p, sub)
+	r.Floor("R3", 3)
+	for _, o := range sub.Obls {
+		if o.Status == core.Violated || o.Status == core.Undecided {
+			r.Bad("R3", nil, "shared copy helper: "+o.Construct, token.NoPos, o.How)
+		} else {
+			r.OK("R3", nil, "shared copy helper: "+o.Construct, token.NoPos, o.How)
+		}
+	}
+	generatorOrderSources(p, r, "R5", "devpkg/partialstruct")
 }
 
 func c18R1(p *core.Program, r *core.Report) {
